@@ -155,7 +155,8 @@ def render_file(fid, f, plain=False):
 
     layout = items(f["items"])
     text = "\n".join(out)
-    if plain or not (st.next(10) == 0 and out and out[-1].strip()):
+    # (gcc warns about a spliced last line without a final newline: keep that out of the domain)
+    if plain or not (st.next(10) == 0 and out and out[-1].strip()) or (len(out) >= 2 and out[-2].endswith("\\")):
         text += "\n"
     return text, layout, counted
 
@@ -262,11 +263,19 @@ class Model:
         sysd = [d for k, d in dirs if k == "isystem"]
         idirs = [d for k, d in dirs if k == "I" and os.path.normpath(d) not in {os.path.normpath(s) for s in sysd}]
         search = ([cur_dir] if form == "quote" else []) + idirs + sysd
+        found = None
+        ncand = 0
+        seen = set()
         for d in search:
             p = os.path.normpath(os.path.join(d, spelling))
             if self.exists(p):
-                return p
-        return None
+                if found is None:
+                    found = p
+                if os.path.realpath(p) not in seen:
+                    seen.add(os.path.realpath(p))
+                    ncand += 1
+        self.last_ncand = ncand
+        return found
 
     def run(self, main, defines=(), dirs=(), forced=()):
         """main: absolute path of the compiled file.  Returns (used, events)
@@ -277,6 +286,8 @@ class Model:
         self.once = set()
         self.dirs = list(dirs)
         self.depth = 0
+        self.trace = []  # (includer, form, spelling, resolved, n_candidates)
+        self.entered = {}  # realpath -> times processed in this translation unit
         for d in defines:
             n, b = parse_define_arg(d)
             if "(" in n:
@@ -305,6 +316,7 @@ class Model:
         self.depth += 1
         if self.depth > 40:
             raise Invalid("include depth")
+        self.entered[os.path.realpath(path)] = self.entered.get(os.path.realpath(path), 0) + 1
         self._items(path, rel, self.tree[rel]["items"], self.layouts[rel])
         self.depth -= 1
 
@@ -352,6 +364,7 @@ class Model:
                     else:
                         raise Invalid("computed include does not expand to a header name")
                 p = self.resolve_include(form, sp, os.path.dirname(path), self.dirs)
+                self.trace.append((os.path.realpath(path), form, sp, p and os.path.realpath(p), self.last_ncand))
                 if p is None:
                     self.events.append(("missing", os.path.realpath(path), lay["lines"][0], sp, form))
                 elif os.path.realpath(p) not in self.once:
